@@ -44,6 +44,7 @@ VerdictPl ==
 \cup Viol("LIGHT_TIME", Near(Ev.tau, Mul(LightTime, Ev.delta), Dec(1, 7)))
 \cup Viol("GEOCENTRIC_DIRECTION", PointsAlong(ue, D, Ev.delta, tol))
 \cup Viol("ELONGATION_VALUE", ElongOK(ue, Ev.us, Ev.cel, Ev.sel, tol))
+\cup Viol("ELONGATION_COARSE", ElongOK(ue, Ev.us, Ev.cel, Ev.sel, Rad(5, 1)))      \* enforced for every planet (see KNOWN_FINDINGS)
 \cup Viol("ELONGATION_RANGE", /\ Ge(Ev.elong, Zero) /\ Le(Ev.elong, FromInt(180))
                              /\ (Ev.pl = "Mercury" => Le(Ev.elong, Dec(285, 1))) /\ (Ev.pl = "Venus" => Le(Ev.elong, FromInt(48))))
 \cup Viol("EPOCH_NOT_SHIFTED", Ev.ja = Ev.jb)
